@@ -325,8 +325,9 @@ type (
 		// OnCReact fires when a client socket receives data from the peer.
 		OnCReact(packet *Msg, c CConn) (out []byte, action Action)
 
-		// OnMoved fires when a redis connection return moved/ask error
-		OnMoved(addr string, slot int32, c SConn, f *Frag)
+		// OnMoved fires when a redis connection return moved/ask error; it reports whether the
+		// fragment was handed to the node named by the redirect
+		OnMoved(addr string, slot int32, c SConn, f *Frag) bool
 
 		// OnTicker fires every second for cluster nodes loop
 		OnTicker()
@@ -379,7 +380,8 @@ func (es *BuiltinEventEngine) OnCReact(_ *Msg, _ CConn) (_ []byte, _ Action) {
 }
 
 // OnMoved fires when a redis connection return moved/ask error
-func (es *BuiltinEventEngine) OnMoved(_ string, _ int32, _ SConn, _ *Frag) {
+func (es *BuiltinEventEngine) OnMoved(_ string, _ int32, _ SConn, _ *Frag) bool {
+	return false
 }
 
 // OnTicker fires every second for cluster nodes loop
